@@ -1,2 +1,567 @@
-// Package c16: monitor for property C16 (see DESIGN.md section 2).
+// Package c16: monitor for property C16 (see DESIGN.md section 2) —
+// decoders/parsers are total: malformed input gives an error, never a crash.
 package c16
+
+import (
+	"bytes"
+	"encoding/binary"
+	"encoding/gob"
+	"encoding/json"
+	"fmt"
+	"os"
+	"path/filepath"
+	"runtime"
+	"runtime/debug"
+	"sort"
+	"strings"
+	"time"
+
+	"verifharness/internal/fw"
+)
+
+func init() {
+	fw.RegisterMonitor("C16", "exploration", Run)
+	fw.RegisterChild("c16pure", pureChild)
+	fw.RegisterChild("c16repl", replChild)
+	fw.RegisterChild("c16file", fileChild)
+	fw.RegisterChild("c16pg", pgChild)
+}
+
+const allocLimit = 256 << 20 // eight times the largest message bound the system declares (32 MiB)
+var asLimit = int64(2 << 30) // address-space limit of a child: an allocation of about 1 GiB or more ends as a countable out-of-memory exit
+
+// ---- measurement and signatures (child side)
+
+type callResult struct {
+	Panicked bool
+	Sig      string
+	Text     string
+	Alloc    uint64
+	Err      error
+}
+
+// measure runs f under fw.Guard and returns the TotalAlloc delta of the call.
+func measure(f func() error) (res callResult) {
+	var m0, m1 runtime.MemStats
+	runtime.ReadMemStats(&m0)
+	var text string
+	res.Panicked, _, text = fw.Guard(func() { res.Err = f() })
+	runtime.ReadMemStats(&m1)
+	res.Alloc = m1.TotalAlloc - m0.TotalAlloc
+	if res.Panicked {
+		res.Text = text
+		res.Sig = sigOf(text)
+	}
+	if res.Alloc > allocLimit {
+		debug.FreeOSMemory()
+	}
+	return
+}
+
+// frames returns the function names of a Go traceback, innermost first.
+func frames(text string) []string {
+	var out []string
+	for _, line := range strings.Split(text, "\n") {
+		if line == "" || line[0] == '\t' || line[0] == ' ' || strings.HasPrefix(line, "goroutine ") || strings.HasPrefix(line, "created by ") || strings.HasPrefix(line, "panic: ") || strings.HasPrefix(line, "fatal error") || strings.HasPrefix(line, "[signal") {
+			continue
+		}
+		i := strings.LastIndex(line, "(")
+		if i <= 0 {
+			continue
+		}
+		out = append(out, line[:i])
+	}
+	return out
+}
+
+// sigOf reduces a crash text to "<first immudb frame>[<-stdlib helper]/<kind>".
+// When the faulting operation is a standard-library helper called from the
+// immudb frame (binary.BigEndian.Uint32 ...) its name is kept, so that
+// different sites of one function stay distinct.
+func sigOf(text string) string {
+	base := fw.PanicSignature(text)
+	kind := base[strings.LastIndex(base, "/")+1:]
+	prev, fn := "", ""
+	for _, name := range frames(text) {
+		if strings.HasPrefix(name, "github.com/codenotary/immudb/") && !strings.Contains(name, "/verifhook") {
+			fn = strings.TrimPrefix(name, "github.com/codenotary/immudb/")
+			break
+		}
+		if strings.HasPrefix(name, "runtime.") || strings.HasPrefix(name, "runtime/") || name == "panic" || strings.HasPrefix(name, "verifharness") {
+			prev = ""
+			continue
+		}
+		prev = name
+	}
+	if fn == "" {
+		return base
+	}
+	if prev != "" {
+		return fn + "<-" + prev + "/" + kind
+	}
+	return fn + "/" + kind
+}
+
+// crashSig maps the stderr of a dead child to a signature.
+func crashSig(ep, text string) string {
+	s := fw.PanicSignature(text)
+	if strings.HasSuffix(s, "/out-of-memory") {
+		return ep + "/alloc-over-256MiB"
+	}
+	if strings.Contains(text, "goroutine ") && strings.Contains(text, "panic:") {
+		return sigOf(text)
+	}
+	return s
+}
+
+// ---- batches, markers, skip list (shared by the pure and the ReplicateTx groups)
+
+// batch is a contiguous range of inputs of one entry point (J: replica state for ReplicateTx).
+type batch struct {
+	EP      string
+	J       int
+	From, N int
+}
+
+func (b batch) markerName() string {
+	ep := strings.Map(func(r rune) rune {
+		if r >= 'a' && r <= 'z' || r >= 'A' && r <= 'Z' || r >= '0' && r <= '9' {
+			return r
+		}
+		return '_'
+	}, b.EP)
+	return fmt.Sprintf("%s-%d-%d", ep, b.J, b.From)
+}
+
+// marker: the child records the index of the input in progress, so that the
+// parent attributes a fatal error or a watchdog hit to exactly one input.
+type marker struct {
+	f    *os.File
+	path string
+}
+
+func openMarker(dir string, b batch) *marker {
+	p := filepath.Join(dir, b.markerName())
+	f, err := os.OpenFile(p, os.O_CREATE|os.O_WRONLY|os.O_TRUNC, 0o644)
+	if err != nil {
+		fmt.Fprintln(os.Stderr, "c16: marker:", err)
+		os.Exit(3)
+	}
+	return &marker{f: f, path: p}
+}
+
+func (m *marker) set(idx int) {
+	var b [8]byte
+	binary.BigEndian.PutUint64(b[:], uint64(idx))
+	m.f.WriteAt(b[:], 0)
+}
+
+func (m *marker) done() {
+	m.f.Close()
+	os.Remove(m.path)
+}
+
+func readMarker(dir string, b batch) (int, bool) {
+	p := filepath.Join(dir, b.markerName())
+	d, err := os.ReadFile(p)
+	os.Remove(p)
+	if err != nil || len(d) < 8 {
+		return 0, false
+	}
+	return int(binary.BigEndian.Uint64(d)), true
+}
+
+// skip list: (entry point|mutation class) pairs whose inputs already killed
+// the child twice; the remaining inputs of that pair are counted as skipped
+// (the same defect seen again adds nothing, a process restart costs much).
+func loadSkip(dir string) map[string]bool {
+	m := map[string]bool{}
+	d, _ := os.ReadFile(filepath.Join(dir, "skip"))
+	for _, l := range strings.Split(string(d), "\n") {
+		if l != "" {
+			m[l] = true
+		}
+	}
+	return m
+}
+
+func addSkip(dir, key string) {
+	f, err := os.OpenFile(filepath.Join(dir, "skip"), os.O_CREATE|os.O_WRONLY|os.O_APPEND, 0o644)
+	if err == nil {
+		f.WriteString(key + "\n")
+		f.Close()
+	}
+}
+
+type violOut struct {
+	Sig, Class, Text string
+	Input            []byte
+	Idx              int
+	Alloc            uint64
+}
+
+type batchOut struct {
+	Counts   map[string]int
+	Viol     []violOut
+	MaxAlloc uint64
+	Skipped  int
+}
+
+type confirmReq struct {
+	Child string
+	B     batch
+	Text  string
+	Data  []byte // case blob when it is not a batch (file-level cases)
+}
+
+// runBatches executes batches in children; a child death or watchdog hit is
+// attributed to the input named by the marker, and the rest of that batch is
+// run in a following round.
+func runBatches(c *fw.Ctx, child string, co *Corpora, setup []byte, batches []batch,
+	inputOf func(b batch, idx int) (string, []byte), absorb func(b batch, out *batchOut), confirm *[]confirmReq) {
+	crashes := map[string]int{}
+	pending := batches
+	for round := 0; len(pending) > 0 && round < 10; round++ {
+		cases := make([][]byte, len(pending))
+		for i, b := range pending {
+			cases[i], _ = json.Marshal(b)
+		}
+		var next []batch
+		cur := pending
+		c.RunCases(child, setup, cases, fw.CasesOpts{Workers: 14, CaseTimout: 180 * time.Second, ASLimit: asLimit}, func(r fw.CaseResult) {
+			b := cur[r.Index]
+			if !r.Crashed && !r.TimedOut {
+				var out batchOut
+				if err := json.Unmarshal(r.Out, &out); err != nil {
+					c.Inconclusive(child + ": bad result: " + err.Error())
+					return
+				}
+				absorb(b, &out)
+				return
+			}
+			idx, ok := readMarker(co.MarkerDir, b)
+			if !ok || idx < b.From || idx >= b.From+b.N {
+				debugf("%s: child died outside an input of batch %+v (marker %d %v): %s", child, b, idx, ok, firstLines(r.Text, 8))
+				c.Inconclusive(fmt.Sprintf("%s: child died outside an input of batch %+v: %s", child, b, firstLines(r.Text, 8)))
+				return
+			}
+			class, in := inputOf(b, idx)
+			debugf("%s %s input #%d (%s) crashed=%v timedout=%v: %s", child, b.EP, idx, class, r.Crashed, r.TimedOut, firstLines(r.Text, 3))
+			if r.Crashed {
+				sig := crashSig(b.EP, r.Text)
+				c.Eval(1)
+				c.Distinct(b.EP + "|" + class + "|crash:" + sig)
+				c.Count("inputs:"+b.EP, 1)
+				c.Count("inputs_total", 1)
+				c.Count("child_deaths", 1)
+				violate(c, sig, fmt.Sprintf("entry point %s, input #%d (class %s, %d bytes: %s): the child process died in this call\n%s", b.EP, idx, class, len(in), hexHead(in, 96), firstLines(r.Text, 24)),
+					map[string][]byte{"input.bin": in, "stderr.txt": []byte(r.Text), "entrypoint.txt": []byte(b.EP)})
+				k := b.EP + "|" + class
+				crashes[k]++
+				if crashes[k] == 2 {
+					addSkip(co.MarkerDir, k)
+				}
+			} else {
+				// a watchdog hit alone decides nothing: re-run this input alone at the end
+				*confirm = append(*confirm, confirmReq{Child: child, B: batch{EP: b.EP, J: b.J, From: idx, N: 1}, Text: r.Text})
+			}
+			if rest := b.From + b.N - (idx + 1); rest > 0 {
+				next = append(next, batch{EP: b.EP, J: b.J, From: idx + 1, N: rest})
+			}
+		})
+		pending = next
+	}
+	for _, b := range pending {
+		c.Count("inputs_not_run_after_repeated_child_deaths", int64(b.N))
+	}
+}
+
+func absorbOut(c *fw.Ctx, ep string, out *batchOut) {
+	n := 0
+	for k, v := range out.Counts {
+		n += v
+		c.Distinct(ep + "|" + k)
+	}
+	c.Eval(n)
+	c.Count("inputs:"+ep, int64(n))
+	c.Count("inputs_total", int64(n))
+	if out.Skipped > 0 {
+		c.Count("inputs_skipped_class_already_killed_child_twice", int64(out.Skipped))
+	}
+	for _, v := range out.Viol {
+		detail := fmt.Sprintf("entry point %s, input #%d (class %s, %d bytes: %s), alloc %d bytes\n%s", ep, v.Idx, v.Class, len(v.Input), hexHead(v.Input, 96), v.Alloc, firstLines(v.Text, 14))
+		violate(c, v.Sig, detail, map[string][]byte{"input.bin": v.Input, "panic.txt": []byte(v.Text), "entrypoint.txt": []byte(ep)})
+	}
+}
+
+// ---- pure entry points
+
+type pureState struct {
+	co  *Corpora
+	sys map[string][]mutation
+}
+
+func newPureState(co *Corpora) *pureState {
+	ps := &pureState{co: co, sys: map[string][]mutation{}}
+	for _, ep := range pureEPs(co) {
+		corpus := co.Pure[ep]
+		for i := range corpus {
+			ps.sys[ep] = append(ps.sys[ep], protoSystematic(ep, &corpus[i])...)
+			ps.sys[ep] = append(ps.sys[ep], systematic(&corpus[i])...)
+		}
+	}
+	return ps
+}
+
+// input returns the idx-th input of an entry point: a pure function of (seed, ep, idx).
+func (ps *pureState) input(ep string, idx int) (string, []byte) {
+	if sys := ps.sys[ep]; idx < len(sys) {
+		return sys[idx].Class, sys[idx].Make()
+	}
+	r := fw.NewRand(ps.co.Seed, fmt.Sprintf("c16/in/%s/%d", ep, idx))
+	if c, b, ok := customRandom(ep, ps.co, r); ok {
+		return c, b
+	}
+	if c, b, ok := protoRandom(ep, ps.co.Pure[ep], r); ok {
+		return c, b
+	}
+	return randomMutation(ps.co.Pure[ep], r)
+}
+
+func decodeCorpora(setup []byte) *Corpora {
+	co := &Corpora{}
+	if err := gob.NewDecoder(bytes.NewReader(setup)).Decode(co); err != nil {
+		fmt.Fprintln(os.Stderr, "c16: bad setup:", err)
+		os.Exit(3)
+	}
+	return co
+}
+
+func pureChild(setup []byte, scratch string) func(i int, data []byte) []byte {
+	runtime.GOMAXPROCS(2)
+	ps := newPureState(decodeCorpora(setup))
+	return func(_ int, data []byte) []byte {
+		var b batch
+		json.Unmarshal(data, &b)
+		out := batchOut{Counts: map[string]int{}}
+		perSig := map[string]int{}
+		drv := drivers[b.EP]
+		skip := loadSkip(ps.co.MarkerDir)
+		mk := openMarker(ps.co.MarkerDir, b)
+		for idx := b.From; idx < b.From+b.N; idx++ {
+			class, in := ps.input(b.EP, idx)
+			if skip[b.EP+"|"+class] {
+				out.Skipped++
+				continue
+			}
+			r := fw.NewRand(ps.co.Seed, fmt.Sprintf("c16/drv/%s/%d", b.EP, idx))
+			mk.set(idx)
+			res := measure(func() error { return drv(in, r) })
+			outcome := outcomeOf(res.Err)
+			sig := ""
+			switch {
+			case res.Panicked:
+				sig = res.Sig
+				outcome = "panic:" + res.Sig
+			case res.Alloc > allocLimit:
+				sig = b.EP + "/alloc-over-256MiB"
+				outcome = "alloc-over"
+			}
+			if res.Alloc > out.MaxAlloc && sig == "" {
+				out.MaxAlloc = res.Alloc
+			}
+			out.Counts[class+"|"+outcome]++
+			if sig != "" {
+				perSig[sig]++
+				if perSig[sig] <= 2 {
+					out.Viol = append(out.Viol, violOut{Sig: sig, Class: class, Text: res.Text, Input: in, Idx: idx, Alloc: res.Alloc})
+				}
+			}
+		}
+		mk.done()
+		d, _ := json.Marshal(out)
+		return d
+	}
+}
+
+// ---- parent
+
+func Run(c *fw.Ctx) {
+	c.Rule = "every input (valid encodings from the real encoders; structure-aware mutations of every length/count/tag/flag field, truncation at every byte, duplicated/swapped sections, header bit flips; random bytes) is fed to each decoding entry point in a child process; refuted by a panic/fatal error, a confirmed hang, a TotalAlloc delta of one call above 256 MiB, or (ReplicateTx) a changed precommitted/committed id or Alh after an error / refusal of the honest next export; distinct = entry point x mutation class x observed outcome class"
+	c.Assume("the Go runtime reports every panic and fatal error of the process under test (recover / exit status + stderr)")
+	c.Assume("runtime.MemStats.TotalAlloc delta around a call in a child that runs nothing else bounds the bytes the call allocated")
+	c.Assume("executing arbitrary SQL is outside the deciding set (parsing only)")
+
+	root := c.Dir("corpus")
+	co, err := buildCorpora(c.Seed, root)
+	if err != nil {
+		c.Inconclusive("cannot build corpus: " + err.Error())
+		return
+	}
+	co.MarkerDir = c.Dir("markers")
+	var setup bytes.Buffer
+	if err := gob.NewEncoder(&setup).Encode(co); err != nil {
+		c.Inconclusive("cannot encode corpus: " + err.Error())
+		return
+	}
+	c.Set("corpus_exports", len(co.Exports))
+	c.Set("sql_seed_statements", len(co.SQL))
+
+	var confirm []confirmReq // watchdog hits, re-run alone at the end
+
+	if v := os.Getenv("VERIF_C16_AS_MIB"); v != "" { // development aid
+		var n int64
+		fmt.Sscan(v, &n)
+		asLimit = n << 20
+	}
+	only := os.Getenv("VERIF_C16_ONLY") // development aid: restrict to one group
+	if only == "" || only == "pure" {
+		runPure(c, co, setup.Bytes(), &confirm)
+	}
+	if only == "" || only == "repl" {
+		runRepl(c, co, setup.Bytes(), &confirm)
+	}
+	if only == "" || only == "files" {
+		runFiles(c, co, setup.Bytes(), &confirm)
+	}
+	if only == "" || only == "pg" {
+		runPg(c, co, setup.Bytes(), &confirm)
+	}
+	runConfirm(c, setup.Bytes(), confirm)
+}
+
+func pureBudget(c *fw.Ctx, ep string) int {
+	// random inputs per entry point on top of the systematic enumeration
+	q, t := 6000, 700000
+	switch {
+	case strings.HasPrefix(ep, "sql."):
+		q, t = 12000, 1500000
+	case strings.HasPrefix(ep, "store."), ep == "appendable.NewMetadata":
+		q, t = 14000, 2500000
+	case strings.HasPrefix(ep, "fmessages.ParseBind"), strings.HasPrefix(ep, "fmessages.ParseParse"), strings.HasPrefix(ep, "stream."):
+		q, t = 8000, 1000000
+	case strings.HasPrefix(ep, "fmessages."):
+		q, t = 1500, 100000
+	case strings.HasPrefix(ep, "schema.Dual"), ep == "schema.TxFromProto":
+		q, t = 5000, 500000
+	}
+	return c.N(q, t)
+}
+
+func runPure(c *fw.Ctx, co *Corpora, setup []byte, confirm *[]confirmReq) {
+	ps := newPureState(co)
+	bsz := c.N(500, 5000)
+	var batches []batch
+	for _, ep := range pureEPs(co) {
+		if f := os.Getenv("VERIF_C16_EP"); f != "" && !strings.Contains(ep, f) {
+			continue
+		}
+		total := len(ps.sys[ep]) + pureBudget(c, ep)
+		c.Set("systematic:"+ep, len(ps.sys[ep]))
+		for from := 0; from < total; from += bsz {
+			batches = append(batches, batch{EP: ep, From: from, N: minI(bsz, total-from)})
+		}
+	}
+	// interleave entry points over the shards (RunCases shards contiguously)
+	perm := fw.NewRand(c.Seed, "c16/pure-order").Perm(len(batches))
+	sb := make([]batch, len(batches))
+	for i, p := range perm {
+		sb[i] = batches[p]
+	}
+	var maxAlloc uint64
+	runBatches(c, "c16pure", co, setup, sb,
+		func(b batch, idx int) (string, []byte) { return ps.input(b.EP, idx) },
+		func(b batch, out *batchOut) {
+			absorbOut(c, b.EP, out)
+			if out.MaxAlloc > maxAlloc {
+				maxAlloc = out.MaxAlloc
+			}
+			if len(out.Viol) == 0 {
+				for k := range out.Counts {
+					if strings.HasSuffix(k, "|ok") {
+						c.Sample(map[string]any{"entry_point": b.EP, "class_outcome": k})
+						break
+					}
+				}
+			}
+		}, confirm)
+	c.Set("max_alloc_bytes_of_a_passing_pure_call", maxAlloc)
+}
+
+var violSeen = map[string]int{}
+
+// violate records the first occurrence of a signature with its witness and
+// counts the others (the framework keeps a bounded number of witnesses).
+func violate(c *fw.Ctx, sig, detail string, files map[string][]byte) {
+	violSeen[sig]++ // handlers are serialized by RunCases
+	c.Count("occurrences:"+sig, 1)
+	if violSeen[sig] == 1 {
+		c.Violation(sig, detail, files)
+	}
+}
+
+func debugf(format string, a ...any) {
+	if os.Getenv("VERIF_C16_DEBUG") != "" {
+		fmt.Fprintf(os.Stderr, format+"\n", a...)
+	}
+}
+
+func hexHead(b []byte, n int) string {
+	if len(b) > n {
+		return fmt.Sprintf("%x…", b[:n])
+	}
+	return fmt.Sprintf("%x", b)
+}
+
+func firstLines(s string, n int) string {
+	lines := strings.SplitN(s, "\n", n+1)
+	if len(lines) > n {
+		lines = lines[:n]
+	}
+	return strings.Join(lines, "\n")
+}
+
+// runConfirm re-executes, alone and one at a time in an otherwise idle child,
+// the inputs during which the watchdog fired: a case still running after 60 s
+// is a hang; a crash gives the crash signature; anything else is inconclusive
+// (the first watchdog hit is then put down to load).
+func runConfirm(c *fw.Ctx, setup []byte, reqs []confirmReq) {
+	byChild := map[string][]confirmReq{}
+	for _, r := range reqs {
+		byChild[r.Child] = append(byChild[r.Child], r)
+	}
+	var names []string
+	for k := range byChild {
+		names = append(names, k)
+	}
+	sort.Strings(names)
+	for _, name := range names {
+		rs := byChild[name]
+		var cases [][]byte
+		for i := range rs {
+			if rs[i].Data == nil {
+				rs[i].Data, _ = json.Marshal(rs[i].B)
+			}
+			cases = append(cases, rs[i].Data)
+		}
+		c.RunCases(name, setup, cases, fw.CasesOpts{Workers: 1, CaseTimout: 60 * time.Second, ASLimit: asLimit}, func(r fw.CaseResult) {
+			rq := rs[r.Index]
+			d := rq.Data
+			switch {
+			case r.Crashed:
+				sig := crashSig(rq.B.EP, r.Text)
+				c.Eval(1)
+				violate(c, sig, fmt.Sprintf("entry point %s input #%d: the child process died on this input when re-run alone\n%s", rq.B.EP, rq.B.From, firstLines(r.Text, 30)), map[string][]byte{"case.json": d, "stderr.txt": []byte(r.Text)})
+			case r.TimedOut:
+				c.Eval(1)
+				violate(c, rq.B.EP+"/hang", fmt.Sprintf("entry point %s input #%d: still running after 60 s when re-run alone in an idle child\n%s", rq.B.EP, rq.B.From, firstLines(r.Text, 40)), map[string][]byte{"case.json": d, "stderr.txt": []byte(r.Text)})
+			default:
+				var out batchOut
+				if name != "c16file" && json.Unmarshal(r.Out, &out) == nil {
+					absorbOut(c, rq.B.EP, &out)
+				}
+				c.Inconclusive(fmt.Sprintf("%s: watchdog fired during %s input #%d but the input returns when re-run alone", name, rq.B.EP, rq.B.From))
+			}
+		})
+	}
+}
